@@ -203,6 +203,14 @@ func runC08(r *Rand, tier string, o *Out) {
 			if res != "err" && res != "eof" {
 				o.Fail("truncated encoding accepted: message", fmt.Sprintf("msg.read cut at %d of %d => %s", k, len(w), res))
 			}
+			if i%6 == 0 {
+				// the same prefix from a peer that hangs up, on a real connection
+				res = o.Do("P", "msg.conn 1 "+hx(w[:k]), true)
+				o.Count("cut:message-on-a-connection")
+				if res != "err" && res != "eof" {
+					o.Fail("truncated encoding accepted: message", fmt.Sprintf("msg.conn cut at %d of %d => %s", k, len(w), res))
+				}
+			}
 		}
 	}
 	o.Extra["encodings_cut_at_every_position"] = exhaustive
